@@ -1584,3 +1584,260 @@ Proof.
   destruct (nested_refused nk d Hk Hm []) as [e He].
   destruct d as [[|kv en] [| |] ks]; try (exists e; exact He). eexists; reflexivity.
 Qed.
+
+(* ============================================================================================== *)
+(* ---- every row list that passes the specification's test `presents_tree` is accepted *)
+
+Lemma existsb_false_forall {A} (f : A -> bool) l : existsb f l = false -> forall x, In x l -> f x = false.
+Proof.
+  intros H x Hx. destruct (f x) eqn:E; [|reflexivity].
+  assert (existsb f l = true) by (apply existsb_exists; exists x; split; assumption). congruence.
+Qed.
+
+Definition is_parent (rows : list row) (c : str) : Prop := exists r, In r rows /\ rparent r = Some c.
+
+Lemma is_parent_occurs rows c : is_parent rows c -> occurs_as_parent rows c = true.
+Proof.
+  intros [r [Hr Hp]]. unfold occurs_as_parent. apply existsb_exists. exists r. split; [exact Hr|].
+  apply has_parent_eq. exact Hp.
+Qed.
+
+(* F1: without an ambiguous name, all rows listing a parent name as child give it the same parent *)
+Lemma unambiguous_parent rows c r1 r2 :
+  ambiguous rows = false -> is_parent rows c -> In r1 rows -> In r2 rows ->
+  rchild r1 = c -> rchild r2 = c -> rparent r1 = rparent r2.
+Proof.
+  intros Ha Hc H1 H2 E1 E2. unfold ambiguous in Ha.
+  pose proof (existsb_false_forall _ _ Ha r1 H1) as H. cbn beta in H.
+  rewrite E1, (is_parent_occurs rows c Hc) in H. cbn [andb] in H.
+  pose proof (existsb_false_forall _ _ H r2 H2) as H'. cbn beta in H'.
+  rewrite E2, str_eqb_refl in H'. cbn [andb] in H'. apply negb_false_iff in H'.
+  rewrite same_parent_ostr in H'. apply ostr_eqb_eq. exact H'.
+Qed.
+
+Lemma NoDup_filter' {A} (f : A -> bool) l : NoDup l -> NoDup (filter f l).
+Proof.
+  induction 1 as [|x l Hx _ IH]; cbn [filter]; [constructor|].
+  destruct (f x); [|exact IH]. constructor; [|exact IH]. intros Hin. apply filter_In in Hin as [Hin _]. contradiction.
+Qed.
+
+Lemma NoDup_app_l {A} (l l' : list A) : NoDup (l ++ l') -> NoDup l.
+Proof.
+  induction l as [|x l IH]; intros H; [constructor|]. cbn [app] in H. inversion H as [|? ? Hn Hd]; subst.
+  constructor; [intros Hin; apply Hn; apply in_or_app; left; exact Hin|apply IH; exact Hd].
+Qed.
+
+Lemma unambiguous_no_dup rows : ambiguous rows = false -> dup_children rows = false.
+Proof.
+  intros Ha. unfold dup_children. destruct (existsb _ _) eqn:E; [exfalso|reflexivity].
+  apply existsb_exists in E as [pr [Hpr Hc]]. apply Nat.ltb_lt in Hc.
+  set (c := fst pr) in *.
+  assert (Hpar : is_parent rows c).
+  { unfold data_check in Hpr. apply filter_In in Hpr as [_ Hq]. apply existsb_exists in Hq as [q [Hq Hs]].
+    apply ostr_eqb_eq in Hs. apply -> dedupe_pairs_In in Hq. destruct q as [qc qp]. cbn [snd] in Hs. subst qp.
+    apply In_pairs_of_inv in Hq as [r [Hr [_ Hrp]]]. exists r. split; assumption. }
+  unfold count_child in Hc.
+  assert (Hnd : NoDup (filter (fun pr0 => str_eqb (fst pr0) c) (data_check rows))).
+  { apply NoDup_filter'. unfold data_check. apply NoDup_filter'. apply dedupe_pairs_NoDup. }
+  destruct (filter (fun pr0 => str_eqb (fst pr0) c) (data_check rows)) as [|x [|y l]] eqn:EL;
+    [cbn in Hc; lia|cbn in Hc; lia|].
+  assert (Hx : In x (x :: y :: l)) by (left; reflexivity).
+  assert (Hy : In y (x :: y :: l)) by (right; left; reflexivity).
+  rewrite <- EL in Hx, Hy. apply filter_In in Hx as [Hx Ex]. apply filter_In in Hy as [Hy Ey].
+  apply str_eqb_eq in Ex, Ey.
+  unfold data_check in Hx, Hy. apply filter_In in Hx as [Hx _]. apply filter_In in Hy as [Hy _].
+  apply -> dedupe_pairs_In in Hx. apply -> dedupe_pairs_In in Hy.
+  destruct x as [xc xp], y as [yc yp]. cbn [fst] in Ex, Ey. subst xc yc.
+  apply In_pairs_of_inv in Hx as [r1 [H1 [E1 P1]]]. apply In_pairs_of_inv in Hy as [r2 [H2 [E2 P2]]].
+  pose proof (unambiguous_parent rows c r1 r2 Ha Hpar H1 H2 E1 E2) as Hp.
+  rewrite P1, P2 in Hp. subst yp. inversion Hnd as [|? ? Hn _]; subst. apply Hn. left. try rewrite Hp. reflexivity.
+Qed.
+
+Lemma climbs_parent rows root : forall k x,
+  climbs k rows root x = true -> x <> root -> is_parent rows root.
+Proof.
+  induction k as [|k IH]; intros x H Hx; cbn [climbs] in H.
+  - rewrite orb_false_r in H. apply str_eqb_eq in H. contradiction.
+  - apply orb_true_iff in H as [H|H]; [apply str_eqb_eq in H; contradiction|].
+    destruct (find (fun r => str_eqb (rchild r) x) rows) as [r|] eqn:Ef; [|discriminate].
+    destruct (rparent r) as [p|] eqn:Ep; [|discriminate].
+    apply find_some in Ef as [Hr _].
+    destruct (str_eqb p root) eqn:E.
+    + apply str_eqb_eq in E. subst p. exists r. split; assumption.
+    + apply (IH p H). apply str_eqb_neq. exact E.
+Qed.
+
+Section Accept.
+  Variable rows : list row.
+  Variable root : str.
+  Hypothesis Hroot : the_root rows = Some root.
+  Hypothesis Hamb : ambiguous rows = false.
+  Hypothesis Hnd : nodup_pairs rows = true.
+  Hypothesis Hne : forall r, In r rows -> rchild r <> [].
+  Hypothesis Hclimb : forall r p, In r rows -> rparent r = Some p -> climbs (length rows) rows root p = true.
+
+  (* F2: the root is not listed as the child of anything *)
+  Lemma root_not_listed r p : In r rows -> rparent r = Some p -> rchild r <> root.
+  Proof.
+    intros Hr Hp E.
+    assert (Hc : root_candidate rows root = true).
+    { apply root_names_candidate. rewrite (the_root_root_names rows root Hroot). left. reflexivity. }
+    unfold root_candidate in Hc. apply orb_true_iff in Hc as [Hc|Hc].
+    - apply existsb_exists in Hc as [r0 [Hr0 Hc]]. apply andb_true_iff in Hc as [E0 N0].
+      apply str_eqb_eq in E0. unfold null_parent in N0. destruct (rparent r0) eqn:P0; [discriminate|].
+      assert (Hnp : ~ is_parent rows root).
+      { intros Hpar. pose proof (unambiguous_parent rows root r0 r Hamb Hpar Hr0 Hr E0 E) as H.
+        rewrite P0, Hp in H. discriminate. }
+      apply Hnp. destruct (str_eqb p root) eqn:Epr.
+      + apply str_eqb_eq in Epr. subst p. exists r. split; assumption.
+      + apply (climbs_parent rows root _ p (Hclimb r p Hr Hp)). apply str_eqb_neq. exact Epr.
+    - apply andb_true_iff in Hc as [_ Hc]. apply negb_true_iff in Hc.
+      assert (occurs_as_child rows root = true).
+      { unfold occurs_as_child. apply existsb_exists. exists r. split; [exact Hr|]. rewrite E. apply str_eqb_refl. }
+      congruence.
+  Qed.
+
+  (* the rows followed from the root down to the node being built, most recent first *)
+  Inductive chain : list row -> str -> Prop :=
+  | chain_nil : chain [] root
+  | chain_cons r path p : chain path p -> In r rows -> rparent r = Some p -> chain (r :: path) (rchild r).
+
+  Lemma chain_incl path p : chain path p -> incl path rows.
+  Proof. induction 1 as [|r path p _ IH Hr _]; [intros x []|]. intros x [<-|Hx]; [exact Hr|apply IH; exact Hx]. Qed.
+
+  Lemma chain_parents path p : chain path p ->
+    map rparent path = map Some (tl (map rchild path ++ [root])) /\ p = hd root (map rchild path ++ [root]).
+  Proof.
+    induction 1 as [|r path p _ [IH1 IH2] _ Hp]; [split; reflexivity|].
+    split; [|reflexivity]. cbn [map app tl]. rewrite Hp, IH1, IH2.
+    destruct (map rchild path ++ [root]) as [|x l] eqn:E; [destruct (map rchild path); discriminate|reflexivity].
+  Qed.
+
+  Lemma chain_names_parents path p : chain path p -> is_parent rows p ->
+    forall x, In x (map rchild path) -> is_parent rows x.
+  Proof.
+    induction 1 as [|r path p _ IH Hr Hp]; intros Hpar x Hx; [destruct Hx|].
+    cbn [map] in Hx. destruct Hx as [<-|Hx]; [exact Hpar|].
+    apply IH; [exists r; split; assumption|exact Hx].
+  Qed.
+
+  Lemma chain_extend path p r :
+    chain path p -> NoDup (map rchild path ++ [root]) -> In r rows -> rparent r = Some p ->
+    NoDup (map rchild (r :: path) ++ [root]).
+  Proof.
+    intros Hch Hnd' Hr Hp. cbn [map app]. constructor; [|exact Hnd'].
+    intros Hin. apply in_app_or in Hin as [Hin|[Hin|[]]].
+    - (* the child's name is already on the path: then it is a parent name with two different parents *)
+      assert (Hpar : is_parent rows p) by (exists r; split; assumption).
+      pose proof (chain_names_parents path p Hch Hpar _ Hin) as Hcpar.
+      apply in_map_iff in Hin as [ri [Ei Hi]].
+      pose proof (unambiguous_parent rows (rchild r) ri r Hamb Hcpar (chain_incl path p Hch ri Hi) Hr Ei eq_refl) as E.
+      rewrite Hp in E.
+      destruct (chain_parents path p Hch) as [Hps Hhd].
+      assert (Hin2 : In (Some p) (map rparent path)) by (rewrite <- E; apply in_map; exact Hi).
+      rewrite Hps in Hin2. apply in_map_iff in Hin2 as [q [Eq Hq]]. inversion Eq; subst q.
+      destruct (map rchild path ++ [root]) as [|x l]; [destruct Hq|].
+      cbn [hd] in Hhd. cbn [tl] in Hq. subst x. inversion Hnd' as [|? ? Hn _]; subst. contradiction.
+    - symmetry in Hin. exact (root_not_listed r p Hr Hp Hin).
+  Qed.
+
+  Lemma child_rows_names_nodup p : NoDup (map rchild (child_rows rows p)).
+  Proof.
+    rewrite child_rows_spec. clear - Hnd. induction rows as [|r t IH]; [constructor|].
+    cbn [nodup_pairs] in Hnd. apply andb_true_iff in Hnd as [H1 H2]. apply negb_true_iff in H1.
+    cbn [filter]. destruct (has_parent r p) eqn:E; [|apply IH; exact H2].
+    cbn [map]. constructor; [|apply IH; exact H2].
+    intros Hin. apply in_map_iff in Hin as [r' [Ec Hr']]. apply filter_In in Hr' as [Hr' E'].
+    pose proof (existsb_false_forall _ _ H1 r' Hr') as H. cbn beta in H.
+    rewrite Ec, str_eqb_refl in H. cbn [andb] in H. rewrite same_parent_ostr in H.
+    apply has_parent_eq in E, E'. rewrite E, E' in H.
+    assert (ostr_eqb (Some p) (Some p) = true) by (apply ostr_eqb_eq; reflexivity). congruence.
+  Qed.
+
+  Lemma attach_succeeds rec : forall crs acc,
+    (forall r, In r crs -> rchild r <> [] /\ exists ks, rec (rchild r) = Ret ks) ->
+    NoDup (map tname (rev acc) ++ map rchild crs) ->
+    exists ks, attach rec crs acc = Ret ks.
+  Proof.
+    induction crs as [|r rest IH]; intros acc Hall Hnd'; cbn [attach]; [eexists; reflexivity|].
+    destruct (Hall r (or_introl eq_refl)) as [Hn [ks Hk]].
+    destruct (rchild r) as [|c0 nm0] eqn:Ec; [congruence|]. rewrite <- Ec in *.
+    assert (Hm : mem_str (rchild r) (map tname acc) = false).
+    { apply mem_str_nIn. intros Hin. cbn [map] in Hnd'. apply NoDup_remove_2 in Hnd'. apply Hnd'.
+      apply in_or_app. left. rewrite map_rev. apply in_rev. rewrite rev_involutive. exact Hin. }
+    rewrite Hm, Hk. apply IH.
+    - intros r' Hr'. apply Hall. right. exact Hr'.
+    - cbn [rev tname]. rewrite map_app. cbn [map tname]. rewrite <- app_assoc. exact Hnd'.
+  Qed.
+
+  Lemma build_succeeds : forall f path p,
+    chain path p -> NoDup (map rchild path ++ [root]) -> length path + f = S (length rows) ->
+    exists ks, add_children f rows p = Ret ks.
+  Proof.
+    induction f as [|f IH]; intros path p Hch Hnd' Hlen.
+    - exfalso.
+      assert (Hnp : NoDup path).
+      { apply NoDup_app_l in Hnd'. apply (NoDup_map_inv rchild). exact Hnd'. }
+      pose proof (NoDup_incl_length Hnp (chain_incl path p Hch)). lia.
+    - cbn [add_children]. apply attach_succeeds.
+      + intros r Hr. unfold child_rows in Hr. apply filter_In in Hr as [Hr Hp]. apply ostr_eqb_eq in Hp.
+        split; [apply Hne; exact Hr|].
+        apply (IH (r :: path) (rchild r)).
+        * apply (chain_cons r path p Hch Hr Hp).
+        * apply (chain_extend path p r Hch Hnd' Hr Hp).
+        * cbn [length]. lia.
+      + cbn [rev map app]. apply child_rows_names_nodup.
+  Qed.
+End Accept.
+
+Lemma rel_to_tree_nonempty ad rows : rows <> [] ->
+  rel_to_tree ad rows =
+  if negb ad && dup_children rows then Raise ValueError
+  else match root_names rows with
+       | [[]] => Raise TreeError
+       | [root_name] =>
+           match add_children (S (length rows)) rows root_name with
+           | Raise e => Raise e
+           | Ret ks => Ret (T None root_name (root_attrs rows root_name) ks)
+           end
+       | _ => Raise ValueError
+       end.
+Proof. destruct rows; [congruence|reflexivity]. Qed.
+
+Lemma presents_tree_inv rows : presents_tree rows = true ->
+  exists root, rows <> [] /\ the_root rows = Some root /\ ambiguous rows = false /\ nodup_pairs rows = true
+    /\ root <> [] /\ (forall r, In r rows -> rchild r <> [])
+    /\ (forall r p, In r rows -> rparent r = Some p -> climbs (length rows) rows root p = true).
+Proof.
+  unfold presents_tree. destruct rows as [|r0 rs]; [discriminate|].
+  destruct (the_root (r0 :: rs)) as [root|]; [|discriminate].
+  intros H. apply andb_true_iff in H as [H Hcl]. apply andb_true_iff in H as [H Hcn].
+  apply andb_true_iff in H as [H Hrn]. apply andb_true_iff in H as [Ha Hnd]. apply negb_true_iff in Ha.
+  rewrite forallb_forall in Hcl, Hcn.
+  exists root. split; [discriminate|]. split; [reflexivity|]. split; [exact Ha|]. split; [exact Hnd|].
+  split; [destruct root; [discriminate|discriminate]|]. split.
+  - intros r Hr. specialize (Hcn r Hr). destruct (rchild r); [discriminate|discriminate].
+  - intros r p Hr Hp. specialize (Hcl r Hr). rewrite Hp in Hcl. exact Hcl.
+Qed.
+
+Theorem presents_tree_accepted ad rows : presents_tree rows = true -> exists t, rel_to_tree ad rows = Ret t.
+Proof.
+  intros H. destruct (presents_tree_inv rows H) as [root [Hne [Eroot [Ha [Hnd [Hrn [Hcn Hcl]]]]]]].
+  rewrite (rel_to_tree_nonempty ad rows Hne).
+  rewrite (unambiguous_no_dup rows Ha), andb_false_r.
+  rewrite (the_root_root_names rows root Eroot).
+  destruct (build_succeeds rows root Eroot Ha Hnd Hcn Hcl (S (length rows)) [] root) as [ks Hks].
+  - constructor.
+  - cbn. constructor; [intros []|constructor].
+  - reflexivity.
+  - rewrite Hks. destruct root as [|c0 nm0]; [congruence|]. eexists. reflexivity.
+Qed.
+
+(* the predicate the check evaluates on the implementation's output holds of the model on EVERY input *)
+Theorem prop_rel_model ad rows : prop_rel ad rows (out_of (rel_to_tree ad rows)) = true.
+Proof.
+  destruct (rel_to_tree ad rows) as [t|e] eqn:E; cbn [out_of].
+  - apply accepted_sound. exact E.
+  - cbn [prop_rel]. destruct (presents_tree rows) eqn:Ep; [|reflexivity].
+    destruct (presents_tree_accepted ad rows Ep) as [t Ht]. congruence.
+Qed.
